@@ -632,7 +632,9 @@ def oracle(method, args):
         s, r = a
         if not 2 <= r <= 36:
             return FAIL
-        z = int_text(s[2:] if s.startswith("0x") else s, r, lo, hi)
+        # the radix is stated by the caller: `0x` announces hexadecimal digits and nothing else (in radix 34 and up
+        # `0` and `x` are ordinary digits; below that a text with an `x` in it is not a number)
+        z = int_text(s[2:] if (r == 16 and s.startswith("0x")) else s, r, lo, hi)
         return val(V("nil")) if z is None else val(V(kind, z))
     if method == "parse_bool":
         return val(V("bool", a[0] == "true")) if a[0] in ("true", "false") else val(V("nil"))
@@ -781,7 +783,7 @@ INT_TEXTS = ["", "+", "-", "0", "-0", "+0", "00", "+5", "25", "-25", "25.0", " 2
              "-170141183460469231731687303715884105729", "0x10", "0x", "0x-5", "0x+5", "0xff", "0xFF", "0xg", "0X10", "0x0x1", "x10", "00x1", "ff", "FF", "-ff", "z", "Z",
              "zz", "-zz", "10", "101", "102", "7fffffff", "80000000", "-80000000", "1_000", "1e3", "٣", "１", "--5", "+-5", "5-", "1\n",
              "1111111111111111111111111111111", "11111111111111111111111111111111", "-10000000000000000000000000000000", "zik0zj", "zik0zk",
-             "0b101", "0x7fffffff", "0x80000000", "0x-80000000", "0x7fffffffffffffffffffffffffffffff", "0x80000000000000000000000000000000"]
+             "0b101", "0xz", "0xZ1", "0x0", "-0x10", "0x7fffffff", "0x80000000", "0x-80000000", "0x7fffffffffffffffffffffffffffffff", "0x80000000000000000000000000000000"]
 FLOAT_TEXTS = ["", "+", "-", ".", "1", "1.", ".5", "-.5", "+.5", "1.5", "0.1", "-0", "+0.0", "1e5", "1e", "1e+", "1e-", "1E-5", "1e+5", "e5", ".e5", "1.e5",
                "1.5e3", "inf", "-inf", "+inf", "Infinity", "-INFINITY", "INF", "iNf", "nan", "-NaN", "NAN", "infinit", "in", "na", "nanx", "infinityy",
                "1e309", "1e308", "1.7976931348623157e308", "1.7976931348623158e308", "1.7976931348623159e308", "179769313486231580793728971405303415079934132710037826936173778980444968292764750946649017977587207096330286416692887910946555547851940402630657488671505820681908902000708383676273854845817711531764475730270069855571366959622842914819860834936475292719074168444365510704342711559699508093042880177904174497791.9999999999999999999999",
